@@ -244,6 +244,11 @@ func runC16(c *harness.Ctx) {
 			buf := make([]byte, w.Size)
 			patFill(0, wrOff, buf)
 			n, err := conn.Write(buf)
+			// the application reuses its buffer as soon as Write has returned
+			// (io.Copy does): "Write must not retain p"
+			for i := range buf {
+				buf[i] = 0xEE
+			}
 			c.S.Sleep(0)
 			if err != nil {
 				wrErr = err
